@@ -278,6 +278,30 @@ pub fn interval(args: &[String]) {
             }
         }
     }
+    // C03 through solve_ivp: a first_step that covers the whole interval, far from the origin, where x0 -/+ |xend - x0| does not
+    // round to xend: Success has to come with the sample at xend
+    {
+        let mut k = 0;
+        for method in ALL_METHODS {
+            for (x0, xend, fs) in [(20000.3, 0.1, 20000.2), (20000.3, 0.1, 30000.0), (1000000.3, 0.1, 1000000.2), (0.1, 20000.3, 20000.2), (-7.1, 65536.7, 1e6), (3.3e7, -0.7, 3.3e7)] {
+                let p = Prob::new(Kind::Harmonic);
+                let c = Cfg { kind: Kind::Harmonic, method, x0, xend, rtol: 1e-3, atol: 1e-6, first: Some(fs), maxstep: None, nmax: Some(200000), };
+                let (mut why, mut key) = (String::new(), "");
+                match catch_unwind(AssertUnwindSafe(|| solve_ivp(&p, x0, xend, &p.y0(), c.opts()))) {
+                    Ok(Ok(sol)) => {
+                        if sol.status == Status::Success && sol.t.last().copied() != Some(xend) {
+                            key = "c03-covering-first-step-no-end-sample";
+                            why = format!("first_step {} covers [{}, {}]: Success, but the samples are {:?} (the last one is not xend)", fs, x0, xend, if sol.t.len() <= 4 { sol.t.clone() } else { vec![sol.t[0], *sol.t.last().unwrap()] });
+                        }
+                    }
+                    Ok(Err(e)) => { key = "c03-covering-first-step-no-end-sample"; why = format!("solve_ivp returns Err({:?})", e).replace('"', "'"); }
+                    Err(_) => { key = "c04-hang-or-panic"; why = "solve_ivp panicked".into(); }
+                }
+                out("iv", 537000 + k, &c, "covering-first-step-far-origin", key, &why, "");
+                k += 1;
+            }
+        }
+    }
     // C11 at the solver interface (accepted steps as the callback sees them): a given first_step larger than max_step must not
     // produce an accepted step longer than max_step
     {
